@@ -144,7 +144,7 @@ func compareOutcome(o *ref.Outcome, a actual) string {
 		if isRuntimeErr(a.Err) {
 			return fmt.Sprintf("expected a compile error (%s), got runtime error %q", o.Compile.Class, a.Err)
 		}
-		if a.Blocks != nil || a.Binding != nil {
+		if len(a.Blocks) != 0 || a.Binding != nil {
 			return "compile error but results returned"
 		}
 		if a.Out != "" {
